@@ -25,8 +25,9 @@ type actor struct {
 	resume chan struct{}
 	parked bool
 	at     string
-	done   bool
-	panicV any
+	done    bool
+	adopted bool // a foreign goroutine adopted at a hook: it is "unfinished" only while parked
+	panicV  any
 }
 
 // Sched runs one schedule.
@@ -77,7 +78,7 @@ func (s *Sched) hook(point string) {
 			s.mu.Unlock()
 			return
 		}
-		a = &actor{id: len(s.actors), gid: gid, resume: make(chan struct{})}
+		a = &actor{id: len(s.actors), gid: gid, resume: make(chan struct{}), adopted: true}
 		s.actors = append(s.actors, a)
 		s.byGID[gid] = a
 	} else if s.Only != nil && !s.Only[point] && point != "start" {
@@ -150,7 +151,7 @@ func (s *Sched) Run(prefix []int, maxSteps int) SchedResult {
 		var parked, unfinished []*actor
 		s.mu.Lock()
 		for _, a := range s.actors {
-			if !a.done {
+			if !a.done && (!a.adopted || a.parked) {
 				unfinished = append(unfinished, a)
 				if a.parked {
 					parked = append(parked, a)
